@@ -108,7 +108,13 @@ fn generic(s: &str) -> String {
     // because a longer header mentions them have no span
     if let Ok(d) = toml_edit::ImDocument::parse(s) {
         let n = d.as_table().iter().filter(|(_, i)| i.span().is_none()).count();
-        out += &format!(" nospan={n}");
+        // ... of which: entries that are NOT implicit tables (an explicit [header] table, a value, an array of tables)
+        let ne = d
+            .as_table()
+            .iter()
+            .filter(|(_, i)| i.span().is_none() && !matches!(i, Item::Table(t) if t.is_implicit()))
+            .count();
+        out += &format!(" nospan={n} nospan_explicit={ne}");
     }
     if let (Ok(p), Ok(w)) = (&plain, &wrapped) {
         let erased: BTreeMap<String, toml::Value> =
@@ -127,6 +133,15 @@ fn generic(s: &str) -> String {
                 n += 1;
             }
             out += &format!(" spans={} n={}", if same { "same" } else { "DIFF" }, n);
+        }
+        // the byte entry point must deliver the same spans (offsets into the bytes that were passed in, BOM included)
+        match toml_edit::de::from_slice::<BTreeMap<Spanned<String>, Spanned<toml::Value>>>(s.as_bytes()) {
+            Ok(ws) => {
+                let a: Vec<_> = w.iter().map(|(k, v)| (k.span(), v.span())).collect();
+                let b: Vec<_> = ws.iter().map(|(k, v)| (k.span(), v.span())).collect();
+                out += if a == b { " slice=same" } else { " slice=DIFF" };
+            }
+            Err(_) => out += " slice=err",
         }
     }
     out
